@@ -6,6 +6,7 @@ package e1
 import (
 	"encoding/binary"
 	"fmt"
+	"math"
 	"sort"
 	"strings"
 
@@ -224,7 +225,7 @@ func (s *Sim) buildTx(st kernel.Step) *types.Transaction {
 		return s.signPrivileged(tx, a(0), a(1))
 	case "updateconfig":
 		tx := w.NewTx(chain.NodeManager, node_manager.UPDATE_CONFIG, chain.Args(&node_manager.UpdateConfigParam{Configuration: &node_manager.Configuration{
-			BlockMsgDelay: 5000 + uint32(a(2)%3)*1000, HashMsgDelay: 6000, PeerHandshakeTimeout: 10, MaxBlockChangeView: 10000 + uint32(a(2)%5)}}), s.nextNonce())
+			BlockMsgDelay: 5000 + uint32(a(2)%3)*1000, HashMsgDelay: 6000, PeerHandshakeTimeout: 10, MaxBlockChangeView: viewArg(a(2))}}), s.nextNonce())
 		return s.signPrivileged(tx, a(0), a(1))
 	case "regchain", "updchain":
 		o := s.named(s.User(a(2)))
@@ -399,4 +400,22 @@ func (s *Sim) CutBlock(nonce uint64) (*BlockRec, error) {
 	s.Pending = nil
 	s.Blocks = append(s.Blocks, rec)
 	return rec, nil
+}
+
+// viewArg maps the updateconfig step's third argument to a MaxBlockChangeView: ordinary values
+// just above the contract's lower bound, and extreme ones (an operator switching automatic
+// epoch changes off) that sit at the edge of the uint32 range.
+func viewArg(x int64) uint32 {
+	if x < 0 {
+		x = -x
+	}
+	switch x % 8 {
+	case 5:
+		return math.MaxUint32
+	case 6:
+		return math.MaxUint32 - 1
+	case 7:
+		return 1 << 31
+	}
+	return 10000 + uint32(x%8)
 }
